@@ -77,6 +77,17 @@ func c16(r *core.Run) {
 		if src.Bool(1, 5) {
 			m = e.reg.Invalid(src, "")
 		}
+		if src.Bool(1, 6) {
+			// the name exists as a symbolic link to a file kept elsewhere: writing the
+			// Spec must replace the link, removing it must remove the link, and the
+			// file it points to is none of the library's business
+			target := fmt.Sprintf("/staging/linked%d", i)
+			e.admin.MkdirAll("/staging", 0o755)
+			e.admin.WriteFile(target, m.Content, 0o644)
+			e.admin.Symlink(target, d+"/"+name)
+			r.Notef("pre-existing %s/%s -> %s = %s", d, name, target, m)
+			continue
+		}
 		e.admin.WriteFile(d+"/"+name, m.Content, 0o644)
 		r.Notef("pre-existing %s/%s = %s", d, name, m)
 	}
